@@ -90,6 +90,17 @@ func standardPhases(mons []string, suffix int, thorough bool) []Phase {
 		}
 		add("commit call k=1..8 of node 0/1/2 applied by the application, reply lost (static3 seed)", cf)
 	}
+	if mons[len(mons)-1] == "C10" {
+		// nodes that joined later and did not replay history: a joiner that fast-forwards before / after its own join
+		// became effective, optionally followed by a second join or a leave
+		var fj []sched.Item
+		for ffpos := 24; ffpos <= 100; ffpos += map[bool]int{true: 2, false: 8}[thorough] {
+			for _, v := range []string{"ffjoin:3:5:110:%d:0:0", "ffjoin:3:5:110:%d:0:1", "ffjoin:4:5:120:%d:0:2"} {
+				fj = append(fj, sched.Item{Scenario: fmt.Sprintf(v, ffpos), Mode: "s3", Mons: mons, Suffix: suffix})
+			}
+		}
+		add("a joiner with fast-sync resets itself at seed position p (then nothing / a second join / a leave): its validator-set history against the full-history nodes'", fj)
+	}
 	if mons[len(mons)-1] == "C02" {
 		// "starting where it began (0, or the block after a fast-sync anchor)": a validator that replays its
 		// database and then runs the fast-forward every fast-sync node runs after Init
